@@ -289,10 +289,13 @@ def check_item(case):
         els = list(vals)
         body = '<dtml-var sequence-item>,'
     orig = list(els)
-    src = '<dtml-in %s %s%s>%s</dtml-in>' % (
+    batch = case.get('batch')
+    src = '<dtml-in %s %s%s%s>%s</dtml-in>' % (
         {'expr': '"s"', 'expr=': 'expr="s"'}.get(case.get('seq'), 's'),
-        'sort' if how == 'empty' else 'sort=sequence-item',
-        ' reverse' if rev else '', body)
+        {'empty': 'sort', 'empty=': 'sort=""'}.get(how,
+                                                    'sort=sequence-item'),
+        ' reverse' if rev else '',
+        ' start=%d size=%d orphan=0' % tuple(batch) if batch else '', body)
     try:
         out = HTML(src)(s=els)
     except Exception as e:
@@ -302,6 +305,11 @@ def check_item(case):
     order = sorted(range(len(vals)), key=lambda i: vals[i])   # stable
     if rev:
         order = order[::-1]
+    if batch:
+        # the batch is a window of the ordered sequence
+        first = min(batch[0], len(order)) - 1
+        order = order[max(first, 0):max(first, 0) + batch[1]] \
+            if order else order
     if kind == 'pair':
         exp = ''.join('%s:v%d,' % (vals[i], i) for i in order)
     else:
@@ -364,8 +372,10 @@ def strategy():
     keyed_cases = st.one_of(one, one, two).flatmap(keyed)
     item = st.fixed_dictionaries(dict(
         kind=st.sampled_from(['int', 'str', 'pair']),
-        how=st.sampled_from(['empty', 'sequence-item']),
+        how=st.sampled_from(['empty', 'sequence-item', 'empty=']),
         rev=st.booleans(),
+        batch=st.one_of(st.none(), st.tuples(st.integers(1, 4),
+                                             st.integers(1, 4))),
         pairval=st.sampled_from(['str', 'desc', 'object']),
         seq=st.sampled_from(['name', 'expr', 'expr=']),
         vals=st.just(None))).flatmap(lambda c: st.lists(
